@@ -34,13 +34,16 @@ def write_replay(prop, clause_name, case, msg, seed, key=None):
   return os.path.relpath(path, ROOT)
 
 
-def run_hypothesis(cl, ctx, n, hseed, shrink):
+def run_hypothesis(cl, ctx, n, hseed, shrink, skip_first=False):
   import hypothesis
   from hypothesis import given, settings, HealthCheck, Phase
   phases = [Phase.explicit, Phase.generate]
   if shrink:
     phases.append(Phase.shrink)
   last = {}
+  state = {'first': skip_first}
+  if skip_first:
+    n += 1
 
   @hypothesis.seed(hseed)
   @settings(max_examples=n, database=None, deadline=None,
@@ -49,6 +52,11 @@ def run_hypothesis(cl, ctx, n, hseed, shrink):
             suppress_health_check=list(HealthCheck))
   @given(cl.strategy())
   def t(case):
+    if state['first']:
+      # Hypothesis starts every run with the simplest example; on shards > 0
+      # that would only repeat shard 0's first case.
+      state['first'] = False
+      return
     case = core.jsonify(case)
     ctx.evaluations += 1
     ctx.current_case = case
@@ -134,7 +142,8 @@ def main():
         fail = run_enum(cl, ctx)
       else:
         shrink = cl.shrink or a.tier == 'thorough'
-        fail = run_hypothesis(cl, ctx, per, hseed, shrink)
+        fail = run_hypothesis(cl, ctx, per, hseed, shrink,
+                              skip_first=a.shard > 0)
       if fail:
         fail['clause'] = cl.name
         fail['replay'] = write_replay(a.prop, cl.name, fail['case'],
